@@ -671,3 +671,48 @@ func (c *Ctx) typedErrors(rule string, fn *ssa.Function, errType string, seen ma
 		c.addc("discharged", rule, fn, fn.Pos(), "error type", fmt.Sprintf("every non-nil error returned is the typed %s (%d construction site(s)) or comes from a callee checked by this rule", errType, n), "")
 	}
 }
+
+// RuleTableConst (S-TABLECONST): the package-level table is written only by package initialisation: no Store to
+// the global, no MapUpdate / element store through a load of it, and its address is not taken elsewhere.
+func (c *Ctx) RuleTableConst(rule string, g *ssa.Global) {
+	bad := false
+	for _, fn := range SortedFuncs(c.AllRepoFuncs()) {
+		if fn.Name() == "init" && fn.Pkg == g.Pkg {
+			continue
+		}
+		for _, b := range fn.Blocks {
+			for _, in := range b.Instrs {
+				switch x := in.(type) {
+				case *ssa.Store:
+					if x.Addr == ssa.Value(g) {
+						c.addc("violated", rule, fn, x.Pos(), "write "+g.Name(), "package-level table "+g.Name()+" is reassigned at run time: the constants the rules read are no longer what the code uses", "")
+						bad = true
+					}
+					if ia, ok := x.Addr.(*ssa.IndexAddr); ok && globalLoad(ia.X) == g {
+						c.addc("violated", rule, fn, x.Pos(), "write "+g.Name(), "element of table "+g.Name()+" is overwritten at run time", "")
+						bad = true
+					}
+				case *ssa.MapUpdate:
+					if globalLoad(x.Map) == g {
+						c.addc("violated", rule, fn, x.Pos(), "write "+g.Name(), "entry of table "+g.Name()+" is written at run time", "")
+						bad = true
+					}
+				default:
+					for _, op := range in.Operands(nil) {
+						if *op == ssa.Value(g) {
+							if u, ok := in.(*ssa.UnOp); ok && u.Op == token.MUL {
+								continue // plain load
+							}
+							c.addc("undecided", rule, fn, in.Pos(), "address "+g.Name(), "address of table "+g.Name()+" escapes (who-writes analysis not applicable)", "")
+							bad = true
+						}
+					}
+				}
+			}
+		}
+	}
+	if !bad {
+		c.addc("discharged", rule, nil, g.Pos(), "const "+g.Name(), "table "+g.Pkg.Pkg.Name()+"."+g.Name()+" is written only by package initialisation", "")
+		c.Out[len(c.Out)-1].Site = g.Pkg.Pkg.Name() + "." + g.Name()
+	}
+}
